@@ -120,6 +120,13 @@ func genOp(r *simrt.RNG, renameBias float64) Op {
 			return Op{Op: "datetime", K: k, Lit: []string{"RFC3339", "ANSIC", "nope"}[r.Intn(3)]}
 		}
 	}
+	if r.Intn(16) == 0 {
+		// a local variable named like a key: builtins that read their operand "variables first"
+		// (cast, one-argument add_key / set_tag, strfmt arguments ...) then see the variable's value -
+		// of any kind, lists and maps included - and write it to the point under that name
+		return Op{Op: "shadow", K: []string{"n1", "n2", "f1", "t1", "message", "pl_msg"}[r.Intn(6)],
+			Lit: []string{"[1, 2]", `{"a": 1}`, `"x"`, "5", "nil", "1.5", "true", "[f_nan]", `"77"`, "[]"}[r.Intn(10)]}
+	}
 	switch r.Intn(14) {
 	case 0, 1, 2:
 		return Op{Op: "add_key", K: k, Lit: lits[r.Intn(len(lits))]}
@@ -236,6 +243,8 @@ func renderSeg(sg *Segment) string {
 			fmt.Fprintf(&b, "default_time(%s)\n", op.K)
 		case "grok":
 			fmt.Fprintf(&b, "grok(%s, %q)\n", op.K, op.Lit)
+		case "shadow":
+			fmt.Fprintf(&b, "%s = %s\n", op.K, op.Lit)
 		case "raw1":
 			fmt.Fprintf(&b, "%s(%s)\n", op.Lit, op.K)
 		case "replace":
@@ -441,12 +450,21 @@ func (t *taskRun) chk(ctx *runtime.Task, e *ast.CallExpr) *errchain.PlError {
 	}
 	// I5 script-level reads
 	reads := make([]string, 0, len(alphabet))
+	shadowed := map[string]bool{} // names that are local variables by now: their bare form reads the variable
+	for i := 0; i <= idx && i < len(t.cur.Ops); i++ {
+		if t.cur.Ops[i].Op == "shadow" {
+			shadowed[t.cur.Ops[i].K] = true
+		}
+	}
 	for i, k := range alphabet {
 		want, _, err := pt.Get(k)
 		if err != nil {
 			want = nil
 		}
 		for j := 0; j < 2; j++ {
+			if j == 0 && shadowed[k] {
+				continue
+			}
 			v, _, rerr := runtime.RunStmt(ctx, e.Param[1+2*i+j])
 			if rerr != nil {
 				t.fail("invariant", "script-read-error", fmt.Sprintf("reading %q in the script failed: %v", k, rerr), idx)
